@@ -97,6 +97,18 @@ func forEachCase(ep *EP, thorough bool, fn caseFn) int {
 				}
 			}
 		}
+		// every deletion of 1, 2 or 3 consecutive bytes (a field that is shorter than its syntax promises)
+		// and every duplication of one byte
+		for n := 1; n <= 3; n++ {
+			for p := 0; p+n <= L && !e.stop; p++ {
+				buf = append(append(buf[:0], s[:p]...), s[p+n:]...)
+				e.emit(buf, "delete")
+			}
+		}
+		for p := 0; p < L && !e.stop; p++ {
+			buf = append(append(append(buf[:0], s[:p+1]...), s[p]), s[p+1:]...)
+			e.emit(buf, "duplicate")
+		}
 		// appended suffixes
 		for _, sf := range suffixes {
 			buf = append(append(buf[:0], s...), sf...)
